@@ -120,6 +120,7 @@ def run_image(c):
         for ns in (20, 30):
             f2 = FourierRenderer((N, N), jnp.array(psf), n_sigma=ns)
             d = np.abs(np.asarray(f2.render_source(p, "sersic"), np.float64) - a).max() / peak
+            out.setdefault("nsigma_dev", {})[str(ns)] = float(d)
             if d > 5e-3:
                 out["oracle"].append("n_sigma=%d differs from n_sigma=15 by %.3g of the peak" % (ns, d))
     return out
